@@ -21,9 +21,12 @@ from pathlib import Path
 VERIF = Path(__file__).resolve().parent.parent
 REPO = Path(os.environ.get("VERIF_REPO", "/repo"))
 SPEC = VERIF / "spec"
-WORK = VERIF / ".work"
-EVIDENCE = VERIF / "evidence"
-REPLAY = VERIF / "replay"
+# VERIF_SCRATCH (seed evaluation only): work files, evidence and replay files of this run go elsewhere, so that
+# several evaluations can run side by side without touching /verif/evidence
+_SCRATCH = os.environ.get("VERIF_SCRATCH")
+WORK = Path(_SCRATCH) / "work" if _SCRATCH else VERIF / ".work"
+EVIDENCE = Path(_SCRATCH) / "evidence" if _SCRATCH else VERIF / "evidence"
+REPLAY = Path(_SCRATCH) / "replay" if _SCRATCH else VERIF / "replay"
 FINDINGS_FILE = VERIF / "KNOWN_FINDINGS.jsonl"
 GUARD = "NMEA2000_VERIF"
 
